@@ -240,6 +240,7 @@ pub fn run(ctx: &Ctx, rep: &mut Report) {
             }
         }
     }
+    super::c14::giant_buffer_probe(ctx, rep, PID, gen::pm(&[13]), &mut r);
     rep.require("decoded");
     rep.sample(3, || {
         let mut o = J::obj();
